@@ -560,7 +560,26 @@ class C10Executor(Executor):
         self.raise_in(bad, VExc(t, {"site": "open"}))
         f = VExt("OutFile")
         st.ghost[("outfile", f.t.get_id())] = (args[0], args[1] if len(args) > 1 else kwargs.get("mode"))
+        st.ghost["opens"] = st.ghost.get("opens", ()) + ((args[0], args[1] if len(args) > 1 else kwargs.get("mode")),)
         return [(st, f)]
+
+
+def zero_length_worklist(repo=None):
+    """name of the reader attribute that `extractall` iterates (besides the folders) to create the ZERO-LENGTH files
+    (entries with emptyStream + emptyFile have no stream and belong to no folder), or None when extractall has no such loop"""
+    fnode = loader.module(SEVEN, repo).functions.get("SevenZipReader.extractall")
+    if fnode is None:
+        return None
+    loops = sorted([n for n in ast.walk(fnode) if isinstance(n, ast.For)], key=lambda n: (n.lineno, n.col_offset))
+    for lp in loops[1:]:
+        it = lp.iter
+        if isinstance(it, ast.Attribute) and isinstance(it.value, ast.Name) and it.value.id == "self":
+            return it.attr
+    return None
+
+
+ZIDX = z3.Function("zero_length_file_index", I, I)     # j-th zero-length file (index into the file list)
+NZ = z3.Int("num_zero_length_files")
 
 
 def done(label, inv):
@@ -776,10 +795,37 @@ def layout_contracts():
         note="offset of entry j = sum of the sizes of the earlier non-directory entries of the folder"))
 
     # ---- extractall: folder k is decoded from ITS OWN packed stream
+    ZL = zero_length_worklist()
+    ZL_LABEL = "each-zero-length-file-is-created-empty-at-its-own-path"
+
     def ea_self():
-        return p_obj("SevenZipReader", {"_folders": p_folders(), "_pack_sizes": p_intseq(PSZ, NPACK), "_pack_positions": p_list1(PACKPOS),
-                                        "_header_offset": p_const(32), "_folder_to_files": p_ext("FolderMap"), "_files": p_files(),
-                                        "_archive_file": p_ext("ArchiveFile")})
+        f = {"_folders": p_folders(), "_pack_sizes": p_intseq(PSZ, NPACK), "_pack_positions": p_list1(PACKPOS),
+             "_header_offset": p_const(32), "_folder_to_files": p_ext("FolderMap"), "_files": p_files(),
+             "_archive_file": p_ext("ArchiveFile")}
+        if ZL:
+            f[ZL] = Maker(lambda ex, st, name: [(NZ >= 0, VSeq(NZ, lambda j: VInt(ZIDX(j)), "int"))], desc="indices of the zero-length files")
+        return p_obj("SevenZipReader", f)
+
+    def zl_inv(lc):
+        conj = []
+        if lc.extra.get("phase") == "preserve":
+            fi = FINFO(ZIDX(lc.i - 1))
+            base = lc.entry.lookup("path").t
+            opens, writes = new_events(lc, "opens"), new_events(lc, "writes")
+            ok = z3.BoolVal(False)
+            if len(opens) == 1 and len(writes) == 0:
+                pth, mode = opens[0]
+                if isinstance(pth, VStr) and isinstance(mode, VStr) and mode.const() == "wb":
+                    ok = pth.t == SJ(base, FNAME(fi))
+            conj.append(ok)
+        return z3.And(conj + [z3.BoolVal(True)])
+
+    def ea_zero_length(c):
+        """F25: entries with emptyStream + emptyFile are FILES of length 0 and must be extracted (created empty)"""
+        if not ZL:
+            c.note = "extractall only writes the members of folders: an entry without a stream is never created"
+            return z3.BoolVal(False)
+        return z3.BoolVal(bool(c.st.ghost.get(("done", ZL_LABEL))))
 
     def ea_archive(c_or_lc):
         st = c_or_lc.entry
@@ -795,7 +841,8 @@ def layout_contracts():
             z3.ForAll([t], z3.Implies(z3.And(t >= 0, t < NFOLD), NCOD(FOLD(t)) >= 0), patterns=[FOLD(t)]),
             z3.ForAll([t, j], z3.Implies(z3.And(HASF(t), j >= 0, j < NF(t)), z3.And(FIDX(t, j) >= 0, FIDX(t, j) < NFILES)),
                       patterns=[FIDX(t, j)]),
-            z3.ForAll([t], z3.Implies(HASF(t), NF(t) >= 0), patterns=[NF(t)]))
+            z3.ForAll([t], z3.Implies(HASF(t), NF(t) >= 0), patterns=[NF(t)]),
+            *([z3.ForAll([t], z3.Implies(z3.And(t >= 0, t < NZ), z3.And(ZIDX(t) >= 0, ZIDX(t) < NFILES)), patterns=[ZIDX(t)])] if ZL else []))
 
     def ea_hyps(c):
         return PS(NPACK) >= 0          # lemma prefix-sum-nonneg (induction), instantiated at the number of pack streams
@@ -829,8 +876,9 @@ def layout_contracts():
         requires=ea_requires, hyps=ea_hyps,
         raises=[Raises("ValueError", when=lambda c: z3.Length(c.args["path"].t) == 0, label="empty path"),
                 Raises(BAD, label="directory creation / decoder / member extraction failed")],
-        ensures=[completes("folder-k-decoded-from-its-own-pack-stream")],
-        loops={0: LoopSpec(inv=done("folder-k-decoded-from-its-own-pack-stream", ea_inv), label="folder-k-decoded-from-its-own-pack-stream")},
+        ensures=[completes("folder-k-decoded-from-its-own-pack-stream"), ("zero-length-files-are-created-empty", internal(ea_zero_length))],
+        loops=dict([(0, LoopSpec(inv=done("folder-k-decoded-from-its-own-pack-stream", ea_inv), label="folder-k-decoded-from-its-own-pack-stream"))] +
+                   ([(1, LoopSpec(inv=done(ZL_LABEL, zl_inv), label=ZL_LABEL))] if ZL else [])),
         note="for every folder k that has files: the bytes handed to _extract_files_from_folder are "
              "decode_chain(folder k, archive[pack_pos + sum(pack_sizes[:k]) : +pack_sizes[k]])"))
     return out
@@ -1477,13 +1525,16 @@ def build_contracts(reg):
         return [st]
     reg.ext_models[("setattr", "BuiltFile")] = set_built
 
+    ZLB = zero_length_worklist()
+
     def b_self():
         def empty(ex, st, name):
             return VRef(st.alloc(HeapObj("list", [], fresh=False), ex.refs))
-        return p_obj("SevenZipReader", {
+        extra = {ZLB: Maker(empty, desc="[] (as left by __init__)")} if ZLB else {}
+        return p_obj("SevenZipReader", dict(extra, **{
             "_file_sizes": p_intseq(FSZ, NFS), "_files": Maker(empty, desc="[] (as left by __init__)"),
             "_folders": Maker(lambda ex, st, name: [(MF >= 0, VSeq(MF, lambda k: VExt("Folder", FOLD(k)), "Folder"))], desc="list[Folder]"),
-            "_folder_to_files": p_ext("FolderMap")})
+            "_folder_to_files": p_ext("FolderMap")}))
 
     ROLES = {
         "self": b_self(), "num_files": p_int(0),
@@ -1543,6 +1594,16 @@ def build_contracts(reg):
                     # stream AND is not flagged kEmptyFile
                     lc.ex.add_vc("ensures", "empty-file-is-not-a-directory", lc.st.pc, isd.t == z3.And(ES(j), z3.Not(EF(j))),
                                  note="FileInfo.is_directory must be emptyStream AND NOT emptyFile (7zFormat.txt, FilesInfo)", loc="")
+                    if ZLB:
+                        # the worklist of zero-length files (what extractall creates): file j is put on it iff emptyStream AND emptyFile
+                        zr = lc.entry.obj(lc.entry.lookup("self").ref).data[ZLB]
+                        zl = [v for (r, v) in new_events(lc, "appends") if isinstance(zr, VRef) and r == zr.ref]
+                        zok = z3.BoolVal(False)
+                        if len(zl) == 0:
+                            zok = z3.Not(z3.And(ES(j), EF(j)))
+                        elif len(zl) == 1 and isinstance(zl[0], VInt):
+                            zok = z3.And(ES(j), EF(j), ops.int_term(zl[0]) == j)
+                        lc.ex.add_vc("ensures", "zero-length-files-are-queued-for-extraction", lc.st.pc, zok, loc="")
                     i_c = i.arg(0) if z3.is_add(i) else None
                     if i_c is None or not z3.is_const(i_c):
                         raise ops.Unsupported("loop index shape")
